@@ -427,15 +427,24 @@ def eval_obs(module, cfg, records, *, scratch, max_fail=25, timeout=900, chunk=4
     return n_ok, failures, states
 
 
-def eval_report(module, cfg, records, *, scratch, timeout=1200, chunk=20000, depth_first=False):
+def eval_report(module, cfg, records, *, scratch, timeout=1200, chunk=20000, depth_first=False,
+                is_start=None):
     """Single-pass evaluation of a trace/observation spec whose ReportInv prints
     {"tag":"FAIL","l":<record index>, ...} for every failing record and never
     stops.  Returns (list of (index0, fail-object), states).  Rejection of the
     trace itself (Accepted false / evaluation error) is a ToolError."""
     out = []
     states = 0
-    for base in range(0, len(records), chunk):
-        part = records[base:base + chunk]
+    # chunk boundaries never cut a run (a run starts at a record with is_start(record))
+    cuts = [0]
+    while cuts[-1] < len(records):
+        nxt = min(cuts[-1] + chunk, len(records))
+        if is_start:
+            while nxt < len(records) and not is_start(records[nxt]):
+                nxt += 1
+        cuts.append(nxt)
+    for base, end in zip(cuts, cuts[1:]):
+        part = records[base:end]
         path = Path(scratch) / f"rep-{module}-{base}.ndjson"
         write_ndjson(path, part)
         res = tlc(module, cfg, workers=1, timeout=timeout, env={"TRACE": str(path)},
@@ -445,4 +454,25 @@ def eval_report(module, cfg, records, *, scratch, timeout=1200, chunk=20000, dep
             raise ToolError(f"{module}: trace not consumed / evaluation error:\n{res.raw[-3000:]}")
         for f in printed_json(res, "FAIL"):
             out.append((base + int(f["l"]) - 1, f))
+    return out, states
+
+
+def eval_report_all(module, cfg, records, *, scratch, tag="RES", timeout=1800, chunk=20000):
+    """Like eval_report, but the spec prints one `tag` object for EVERY record."""
+    out = []
+    states = 0
+    for base in range(0, len(records), chunk):
+        part = records[base:base + chunk]
+        path = Path(scratch) / f"all-{module}-{base}.ndjson"
+        write_ndjson(path, part)
+        res = tlc(module, cfg, workers=1, timeout=timeout, env={"TRACE": str(path)})
+        states += res.distinct
+        if not res.ok:
+            raise ToolError(f"{module}: evaluation error:\n{res.raw[-3000:]}")
+        got = printed_json(res, tag)
+        if len(got) != len(part):
+            raise ToolError(f"{module}: {len(got)} results for {len(part)} records")
+        for f in got:
+            out.append((base + int(f["l"]) - 1, f))
+    out.sort(key=lambda t: t[0])
     return out, states
